@@ -303,29 +303,46 @@ Theorem C18_signature_scheme : sound c_sigalg /\ dec_ok c_sigalg /\ trunc c_siga
 Proof. exact (conj sound_sigalg (conj decok_sigalg trunc_sigalg)). Qed.
 Print Assumptions C18_signature_scheme.
 
-Theorem C18_certificate_verify : wsound w_cert_verify /\ wrefix w_cert_verify /\ wtrunc w_cert_verify.
-Proof. exact (conj cert_verify_roundtrip (conj cert_verify_refix cert_verify_trunc)). Qed.
+(* CertificateVerify over the regenerated table, RSA-PSS schemes included: round trip, every
+   accepted input re-encodes to a fixed point, truncation rejected *)
+Theorem C18_certificate_verify :
+  wsound w_cert_verify /\ wfixpoint w_cert_verify /\ wrefix w_cert_verify /\ wtrunc w_cert_verify.
+Proof.
+  exact (conj cert_verify_roundtrip (conj cert_verify_fixpoint (conj cert_verify_refix cert_verify_trunc))).
+Qed.
 Print Assumptions C18_certificate_verify.
 
-Theorem C18_certificate_verify_reencode_refuted :
-  exists b x, bytes_ok b = true /\ wdec w_cert_verify b = Some x /\ wenc w_cert_verify x = None.
-Proof. exact cert_verify_reencode_refuted. Qed.
-Print Assumptions C18_certificate_verify_reencode_refuted.
+Theorem C18_certificate_verify_pss_reencodes :
+  obind (wdec w_cert_verify [8; 4; 0; 1; 170]) (wenc w_cert_verify) = Some [8; 4; 0; 1; 170].
+Proof. exact cert_verify_pss_reencodes. Qed.
+Print Assumptions C18_certificate_verify_pss_reencodes.
 
-(* ClientKeyExchange under every key-exchange context kx (bit 1 = PSK, bit 2 = ECDHE) *)
-Theorem C18_client_key_exchange : forall kx, wsound (w_cke kx) /\ wrefix (w_cke kx).
-Proof. exact (fun kx => conj (cke_roundtrip kx) (cke_refix kx)). Qed.
+(* ClientKeyExchange under every key-exchange context kx (bit 1 = PSK, bit 2 = ECDHE): round
+   trip; truncation rejected; declared lengths honoured (bytes after the declared identity /
+   public key are ignored, never consumed); conditional fixed point *)
+Theorem C18_client_key_exchange : forall kx,
+  wsound (w_cke kx) /\ wtrunc (w_cke kx) /\ wlenient (w_cke kx) /\ wrefix (w_cke kx).
+Proof.
+  exact (fun kx => conj (cke_roundtrip kx) (conj (cke_trunc kx)
+                   (conj (cke_beyond_declared_ignored kx) (cke_refix kx)))).
+Qed.
 Print Assumptions C18_client_key_exchange.
 
-Theorem C18_client_key_exchange_declared_length_refuted :
-  exists b pk, cke_dec 4 b = Some (None, Some pk) /\ hd0 b = 1 /\ len pk = 3.
-Proof. exact cke_declared_length_refuted. Qed.
-Print Assumptions C18_client_key_exchange_declared_length_refuted.
+(* under every context the library constructs (PSK, ECDHE or both) every accepted input
+   re-encodes, and the re-encoding is a fixed point *)
+Theorem C18_client_key_exchange_fixpoint : forall kx,
+  kx_psk kx || kx_ecdhe kx = true -> wfixpoint (w_cke kx).
+Proof. exact cke_fixpoint. Qed.
+Print Assumptions C18_client_key_exchange_fixpoint.
 
-Theorem C18_client_key_exchange_reencode_refuted :
-  exists b x, bytes_ok b = true /\ cke_dec 4 b = Some x /\ cke_enc x = None.
-Proof. exact cke_reencode_refuted. Qed.
-Print Assumptions C18_client_key_exchange_reencode_refuted.
+(* regression inputs of the repaired decoder *)
+Theorem C18_client_key_exchange_regressions :
+  cke_dec 6 [0; 0] = None /\ cke_dec 4 [0; 0] = None /\
+  cke_dec 4 [1; 170; 0] = Some (None, Some [170]) /\
+  cke_dec 4 [1; 170; 187; 204] = Some (None, Some [170]) /\
+  cke_dec 6 [0; 1; 9; 1; 170; 187] = Some (Some [9], Some [170]).
+Proof. exact cke_regressions. Qed.
+Print Assumptions C18_client_key_exchange_regressions.
 
 (* the handshake envelope over all modelled message types, every key-exchange context *)
 Theorem C18_handshake_envelope : forall kx, wsound (w_hs kx) /\ wrefix (w_hs kx) /\ wtrunc (w_hs kx).
